@@ -141,7 +141,23 @@ def run(rep, work, tier, seed, props, replay=None):
     for b, t, vs in quads:
         for v in vs:
             cases.append({"stmts": v, "observe": "end"})
-    results = gh.run_impl_cases(cases)
+    # 0-d heavy programs: scalars that receive gradient from several consumers (accumulation path on 0-d arrays)
+    zero_d = []
+    while len(zero_d) < (600 if tier == "thorough" else 150) and replay is None:
+        b = progs.Builder(rng)
+        for _ in range(rng.randint(1, 3)):
+            b.leaf(rng.choice([(), (), (), (1,), (2,), (1, 1)]), const=rng.random() < 0.1, dtype=rng.choice(["float64", "float64", "float32"]))
+        if all(t.const for t in b.tensors.values()):
+            b.leaf((), const=False)
+        progs.grow(b, rng, rng.randint(2, 8))
+        nc = [nm for nm in b.order if not b.tensors[nm].const]
+        if not nc:
+            continue
+        b.backward(b.tensors[nc[-1]])
+        zero_d.append(b)
+    results = gh.run_impl_cases(cases + [b.case("end") for b in zero_d])
+    zres = results[len(cases):]
+    results = results[:len(cases)]
     ident_bad = []
     inv_bad = []
     for qi, (b, t, vs) in enumerate(quads):
@@ -161,12 +177,16 @@ def run(rep, work, tier, seed, props, replay=None):
         for r in rs:
             for nm, o in r["observations"][-1]["obs"].items():
                 if o["grad"] is not None and (not o["grad_is_ndarray"] or o["grad_shape"] != o["shape"] or o["grad_dtype"] != o["dtype"]):
-                    inv_bad.append((qi, nm, o))
+                    inv_bad.append((qi, nm, o, quads[qi][2][0]))
+    for b, r in zip(zero_d, zres):
+        for nm, o in r["observations"][-1]["obs"].items():
+            if o["grad"] is not None and (not o["grad_is_ndarray"] or o["grad_shape"] != o["shape"] or o["grad_dtype"] != o["dtype"]):
+                inv_bad.append((None, nm, o, b.stmts))
     for qi, what, nm in ident_bad[:5]:
         rep.violation({"kind": "seeding identity broken: " + what, "tensor": nm, "variants": quads[qi][2]})
-    for qi, nm, o in inv_bad[:5]:
+    for qi, nm, o, st in sorted(inv_bad, key=lambda x: len(x[3]))[:5]:
         rep.violation({"kind": "stored gradient is not an ndarray of its tensor's shape and dtype", "tensor": nm, "observed": {k: o[k] for k in ("grad_is_ndarray", "grad_shape", "shape", "grad_dtype", "dtype")},
-                       "stmts": quads[qi][2][0]})
+                       "stmts": st})
     # model correspondence of the seeded runs (variants A and C)
     mb, mr = [], []
     for qi, (b, t, vs) in enumerate(quads):
@@ -184,7 +204,8 @@ def run(rep, work, tier, seed, props, replay=None):
                       no_input=not (ident_bad or inv_bad or n_viol or bad))
     nontrivial = set(json.dumps(t, sort_keys=True) for t in seed_tasks if t["sg"] != t["sL"]) | set(json.dumps(v[2]) for _, _, v in quads)
     rep.coverage.update({
-        "evaluations": len(seed_tasks) + len(red_tasks) + len(layer_tasks) + len(cases),
+        "evaluations": len(seed_tasks) + len(red_tasks) + len(layer_tasks) + len(cases) + len(zero_d),
+        "zero_d_programs": len(zero_d),
         "distinct_nontrivial": len(nontrivial),
         "rule": "lattices: all pairs of shapes of rank <= 3 over extents {1,2,3} (plus three empty shapes) for (L, seed) and for (gradient, variable) -- complete; seed kinds {array, Tensor, list, scalar, int, float32} x "
                 "{f64,f32,f16}; 12 nnet layers/losses x 3 float dtypes; exact-integer programs with a non-scalar terminal in 4 seedings; non-trivial = seed shape differs from L's shape, or a program with an explicit seed; distinct = distinct cell / program",
